@@ -153,13 +153,14 @@ Record pstate := mkP {
 
 Definition p_init : pstate := mkP 0 0 [] false 0.
 
-Inductive pop := PChunk (id : N) | PTick.
+Inductive pop := PChunk (id : N) | PTick | PTerminate.   (* PTerminate = Terminate() called from outside *)
 
 Inductive pev :=
 | PDone (b : bool)                  (* Done() returned b: start of a routine run *)
 | PIsProc (id : N) (b : bool)       (* IsProcessed(id) returned b *)
 | PSusp (b : bool)                  (* Suspend() returned b *)
-| PReq (maxChunks : N).             (* RequestChunks(num, size, maxChunks) *)
+| PReq (maxChunks : N)              (* RequestChunks(num, size, maxChunks) *)
+| PTerminated.                      (* marker: an external Terminate() has returned *)
 
 Local Open Scope N_scope.
 
@@ -173,8 +174,8 @@ Fixpoint sweep (f : N -> bool) (l : list N) : list N * N * list pev :=
       else (c :: keep, n, PIsProc c false :: ev)
   end.
 
-(* routine() = Done? ; sweepProcessedChunks ; tryToSync *)
-Definition proutine (par : N) (oracle : nat -> panswer) (s : pstate) : pstate * list pev :=
+(* routine() of the pinned tree = Done? ; sweepProcessedChunks ; tryToSync *)
+Definition proutine_old (par : N) (oracle : nat -> panswer) (s : pstate) : pstate * list pev :=
   let a := oracle (p_run s) in
   let run' := S (p_run s) in
   if a_done a then (mkP (p_req s) (p_proc s) (p_chunks s) true run', [PDone true])
@@ -187,27 +188,40 @@ Definition proutine (par : N) (oracle : nat -> panswer) (s : pstate) : pstate * 
       (mkP (p_req s + k) proc' keep (p_done s) run', PDone false :: ev ++ [PSusp false; PReq k])
     else (mkP (p_req s) proc' keep (p_done s) run', PDone false :: ev ++ [PSusp false]).
 
+(* routine() after the repair fixes/C18b.patch: "if d.done { return }" first *)
+Definition proutine (par : N) (oracle : nat -> panswer) (s : pstate) : pstate * list pev :=
+  if p_done s then (s, []) else proutine_old par oracle s.
+
 (* one iteration of loop().  The chunk branch checks d.done; the ticker branch does not: after
    Terminate() has closed quit, select may still pick a ticker that has fired, and routine()
    runs once more (found by trace validation against the real ticker).  The model therefore
-   lets a tick run routine() in every state; that the loop eventually leaves through quit is
-   not modelled (it only removes behaviours). *)
-Definition pstep (par : N) (oracle : nat -> panswer) (s : pstate) (o : pop) : pstate * list pev :=
+   lets a tick call routine() in every state; that the loop eventually leaves through quit is
+   not modelled (it only removes behaviours).  PTerminate is Terminate() called by another
+   goroutine (quit closed, done = true). *)
+Definition pstep_gen (rt : N -> (nat -> panswer) -> pstate -> pstate * list pev)
+                     (par : N) (oracle : nat -> panswer) (s : pstate) (o : pop) : pstate * list pev :=
   match o with
   | PChunk id =>
       if p_done s then (s, [])
       else if N.of_nat (length (p_chunks s)) <? par * 2 then
-        proutine par oracle (mkP (p_req s) (p_proc s) (p_chunks s ++ [id]) (p_done s) (p_run s))
+        rt par oracle (mkP (p_req s) (p_proc s) (p_chunks s ++ [id]) (p_done s) (p_run s))
       else (s, [])
-  | PTick => proutine par oracle s
+  | PTick => rt par oracle s
+  | PTerminate => (mkP (p_req s) (p_proc s) (p_chunks s) true (p_run s), [PTerminated])
   end.
 
-Fixpoint prun (par : N) (oracle : nat -> panswer) (s : pstate) (ops : list pop) : pstate * list pev :=
+Definition pstep := pstep_gen proutine.
+Definition pstep_old := pstep_gen proutine_old.
+
+Fixpoint prun_gen (stp : pstate -> pop -> pstate * list pev) (s : pstate) (ops : list pop) : pstate * list pev :=
   match ops with
   | [] => (s, [])
-  | o :: r => let '(s1, e1) := pstep par oracle s o in
-              let '(s2, e2) := prun par oracle s1 r in (s2, e1 ++ e2)
+  | o :: r => let '(s1, e1) := stp s o in
+              let '(s2, e2) := prun_gen stp s1 r in (s2, e1 ++ e2)
   end.
+
+Definition prun (par : N) (oracle : nat -> panswer) := prun_gen (pstep par oracle).
+Definition prun_old (par : N) (oracle : nat -> panswer) := prun_gen (pstep_old par oracle).
 
 (* oracle given as a finite script (what the harness uses): answers beyond the script say
    "done".  The processed set is a list of ids. *)
